@@ -123,6 +123,7 @@ async fn run_inner(c: &ConcCase, dir: &Path, findings: &Findings) -> Result<Case
     let clock = Arc::new(AtomicU64::new(1_000));
     let log = Arc::new(Mutex::new(Vec::<Ev>::new()));
     let done_ops = Arc::new(AtomicU64::new(0));
+    let acked_puts = Arc::new(AtomicU64::new(0));
     let start_gate = Arc::new(tokio::sync::Notify::new());
     let mut hs = vec![];
     for cl in 0..c.nclients {
@@ -130,6 +131,7 @@ async fn run_inner(c: &ConcCase, dir: &Path, findings: &Findings) -> Result<Case
         let clock = clock.clone();
         let log = log.clone();
         let done_ops = done_ops.clone();
+        let acked_puts = acked_puts.clone();
         let c = c.clone();
         let gate = start_gate.clone();
         hs.push(tokio::spawn(async move {
@@ -142,8 +144,15 @@ async fn run_inner(c: &ConcCase, dir: &Path, findings: &Findings) -> Result<Case
             for step in 0..steps {
                 let key = r.below(c.nkeys as u64) as u8;
                 let kb = key_bytes(c.cfg.keylen, key);
-                let op = if c.burst { 0 } else { r.below(20) };
-                if op < 8 {
+                let op = if c.burst { 0 } else { r.below(21) };
+                if op == 20 {
+                    // a count query concurrent with writers and rotations: every put acknowledged before the call is in some blob
+                    let lo = acked_puts.load(SeqCst);
+                    let got = s.records_count().await as u64;
+                    if got < lo {
+                        return Err(format!("records_count/torn: records_count() = {} although {} puts had been acknowledged before the call started", got, lo));
+                    }
+                } else if op < 8 {
                     let len = match r.below(10) {
                         0 => 5000,
                         1 => 90_000,
@@ -153,6 +162,9 @@ async fn run_inner(c: &ConcCase, dir: &Path, findings: &Findings) -> Result<Case
                     let ts = clock.fetch_add(1, SeqCst);
                     let inv = clock.fetch_add(1, SeqCst);
                     let res = s.write(&kb, Bytes::from(value_for(ts, cl, len)), ts, None).await;
+                    if res.is_ok() {
+                        acked_puts.fetch_add(1, SeqCst);
+                    }
                     let resp = clock.fetch_add(1, SeqCst);
                     evs.push(Ev::Write { key, ts, inv, resp, del: false, ok: res.is_ok(), len: len.max(10) });
                 } else if op < 10 {
@@ -502,14 +514,15 @@ pub struct StormCase {
     pub cfg: Cfg,
     pub rounds: u16,
     pub tasks: u8,
-    /// 0: everybody restores, 1: everybody creates, 2: half/half, 3: nobody calls a lifecycle function (writes create the blob)
+    /// 0: everybody restores, 1: everybody creates, 2: half/half, 3: nobody calls a lifecycle function (writes create the blob),
+    /// 4: no lifecycle storm; instead one fresh key is written and every client deletes it with only_if_presented = true
     pub kind: u8,
     pub preload_blobs: u8,
 }
 
 pub fn storm_strategy() -> BoxedStrategy<StormCase> {
     let cfg = (prop::sample::select(&[8usize, 33][..]), prop_oneof![Just(2usize), Just(8usize), Just(8usize)], prop::bool::weighted(0.3)).prop_map(|(keylen, rt_workers, bloom)| Cfg { keylen, rt_workers, bloom: if bloom { Bloom::Tiny } else { Bloom::None }, allow_dup: true, defer_ms: (2, 5), ..Cfg::default() });
-    (cfg, 40u16..140, prop_oneof![Just(4u8), Just(8), Just(16), Just(32)], 0u8..4, 1u8..5).prop_map(|(cfg, rounds, tasks, kind, preload_blobs)| StormCase { cfg, rounds, tasks, kind, preload_blobs }).boxed()
+    (cfg, 40u16..140, prop_oneof![Just(4u8), Just(8), Just(16), Just(32)], 0u8..5, 1u8..5).prop_map(|(cfg, rounds, tasks, kind, preload_blobs)| StormCase { cfg, rounds, tasks, kind, preload_blobs }).boxed()
 }
 
 fn storm_key(keylen: usize, n: u32) -> Vec<u8> {
@@ -544,8 +557,48 @@ pub fn run_storm(c: &StormCase, dir: &Path, _findings: &Findings) -> Result<Case
         let mut stats = Stats::default();
         let mut restore_ok_total = 0u64;
         let mut prev_round: Vec<u32> = vec![];
+        let mut extra_records = 0usize;
         for round in 0..c.rounds {
             stats.steps += 1;
+            if c.kind == 4 {
+                // conditional-delete storm: one live record in the active blob, every client deletes it "only if presented":
+                // exactly one of them finds it live
+                let key_no = next_key;
+                next_key += 1;
+                if let Err(e) = s.write(&storm_key(keylen, key_no), Bytes::from(value_for(key_no as u64, 0, 24)), 1, None).await {
+                    return fail("conc/storm/write-err", format!("round {}: {:#}", round, e));
+                }
+                let barrier = Arc::new(tokio::sync::Barrier::new(c.tasks as usize));
+                let mut hs = vec![];
+                for _ in 0..c.tasks {
+                    let s = s.clone();
+                    let barrier = barrier.clone();
+                    hs.push(tokio::spawn(async move {
+                        barrier.wait().await;
+                        s.delete(&storm_key(keylen, key_no), 2, None, true).await.map_err(|e| format!("{:#}", e))
+                    }));
+                }
+                let mut marked = 0u64;
+                for h in hs {
+                    match h.await {
+                        Ok(Ok(n)) => marked += n,
+                        Ok(Err(e)) => return fail("conc/storm/delete-err", format!("round {}: {}", round, e)),
+                        Err(e) => return fail("panic", format!("client task: {}", e)),
+                    }
+                }
+                stats.deletes += c.tasks as u64;
+                if marked != 1 {
+                    return fail("conc/storm/conditional-delete-not-atomic", format!("round {}: {} concurrent delete(only_if_presented) calls on one live record in the active blob reported {} marked blobs in total (exactly one of them can have found it live)", round, c.tasks, marked));
+                }
+                match s.read(&storm_key(keylen, key_no)).await {
+                    Ok(RR::Deleted(2)) => {}
+                    Ok(other) => return fail("conc/storm/conditional-delete-lost", format!("round {}: read returns {}", round, other.class())),
+                    Err(e) => return fail("conc/storm/read-err", format!("round {}: {:#}", round, e)),
+                }
+                extra_records += 2;
+                labels.insert("conditional_delete_storm".to_string());
+                continue;
+            }
             // no active blob at the start of the storm
             if s.has_active().await {
                 if let Err(e) = s.try_close_active().await {
@@ -620,8 +673,14 @@ pub fn run_storm(c: &StormCase, dir: &Path, _findings: &Findings) -> Result<Case
             }
         }
         let rc = s.records_count().await;
-        if rc != acked.len() {
-            return fail("conc/storm/records-count", format!("records_count {} but {} writes were acknowledged (one record each)", rc, acked.len()));
+        if rc != acked.len() + extra_records {
+            return fail("conc/storm/records-count", format!("records_count {} but {} records were acknowledged (one per write, one per effective delete)", rc, acked.len() + extra_records));
+        }
+        // every blob file on disk is a blob of the storage: racing creators must not leave orphan files (and consumed ids) behind
+        let files = sut::list_files(dir).into_iter().filter(|x| !x.1).count();
+        let blobs = s.blobs_count().await;
+        if files != blobs {
+            return fail("conc/storm/orphan-blob-files", format!("{} blob files on disk, blobs_count = {}", files, blobs));
         }
         let s = match Arc::try_unwrap(s) {
             Ok(s) => s,
@@ -639,8 +698,8 @@ pub fn run_storm(c: &StormCase, dir: &Path, _findings: &Findings) -> Result<Case
             return fail("conc/storm/quarantined", format!("corrupted_blobs_count = {}", s.corrupted_blobs_count()));
         }
         let rc = s.records_count().await;
-        if rc != acked.len() {
-            return fail("conc/storm/records-count", format!("after restart: records_count {} but {} writes were acknowledged", rc, acked.len()));
+        if rc != acked.len() + extra_records {
+            return fail("conc/storm/records-count", format!("after restart: records_count {} but {} records were acknowledged", rc, acked.len() + extra_records));
         }
         let _ = s.close().await;
         labels.insert(format!("storm_kind_{}", c.kind));
@@ -688,7 +747,7 @@ pub fn run(ctx: &RunCtx) -> PropResult {
     PropResult {
         report,
         level: "exploration",
-        rule: "N real client tasks (2/4/8/32/200; bursts of 500-12000 single writes on a full, aged blob) run seeded scripts of write (16 B - 90 KB) / delete / read / contains / read_all on 3-8 keys while a maintenance task forces switches, syncs, frees resources and (level 2) manually closes+creates / restores the active blob; max_data_in_blob 20-80 so that automatic rotation, index dumps and background syncs run underneath; fresh or reopened active blob; current-thread, 2- and 8-worker runtimes; optional sleep perturbation. Timestamps come from one atomic logical clock taken before each call and every value encodes its timestamp, so each key is a max-register. Oracle: for every completed read/contains/read_all of key k: the returned record was written to k by an operation invoked before the read responded (nothing invented, bytes match), its timestamp is >= the largest timestamp acknowledged before the read was invoked (not stale), NotFound only if none, reads ordered in real time are monotone - exactly linearizability of a max-register, no search needed. At quiescence (H3 probe) read_all_with_deletion_marker of every key equals the sequential model of the acknowledged operations; after close every blob file is parsed by the harness: records tile the file, blob_offset equals position, checksums hold, every acknowledged put is stored exactly once, nothing is stored that no client wrote. Deadlock is reported only on a structural witness sampled from the probe (senders blocked on the full queue while holding the read lock, worker waiting for the write lock, zero progress over 5 samples), never on a timeout. A second generated phase (conc-storm) has 40-140 rounds per case: the active blob is closed, then 4-32 clients released by a barrier all call try_restore_active_blob, or try_create_active_blob, or a mix, or nothing, and write one fresh key each; after every round the writes acknowledged in this and the previous round must be readable, at quiescence and after a restart every acknowledged key is served and records_count equals the number of acknowledged writes (a blob dropped by two racing lifecycle calls shows as lost writes). Non-trivial = >=1 read overlapped a write of the same key and >=1 blob rotation happened (conc); >= 4 clients and >= 10 rounds (conc-storm). distinct = FNV hash of the serialized case.".into(),
+        rule: "N real client tasks (2/4/8/32/200; bursts of 500-12000 single writes on a full, aged blob) run seeded scripts of write (16 B - 90 KB) / delete / read / contains / read_all on 3-8 keys while a maintenance task forces switches, syncs, frees resources and (level 2) manually closes+creates / restores the active blob; max_data_in_blob 20-80 so that automatic rotation, index dumps and background syncs run underneath; fresh or reopened active blob; current-thread, 2- and 8-worker runtimes; optional sleep perturbation. Timestamps come from one atomic logical clock taken before each call and every value encodes its timestamp, so each key is a max-register. Oracle: for every completed read/contains/read_all of key k: the returned record was written to k by an operation invoked before the read responded (nothing invented, bytes match), its timestamp is >= the largest timestamp acknowledged before the read was invoked (not stale), NotFound only if none, reads ordered in real time are monotone - exactly linearizability of a max-register, no search needed. At quiescence (H3 probe) read_all_with_deletion_marker of every key equals the sequential model of the acknowledged operations; after close every blob file is parsed by the harness: records tile the file, blob_offset equals position, checksums hold, every acknowledged put is stored exactly once, nothing is stored that no client wrote. Deadlock is reported only on a structural witness sampled from the probe (senders blocked on the full queue while holding the read lock, worker waiting for the write lock, zero progress over 5 samples), never on a timeout. A second generated phase (conc-storm) has 40-140 rounds per case: the active blob is closed, then 4-32 clients released by a barrier all call try_restore_active_blob, or try_create_active_blob, or a mix, or nothing, and write one fresh key each (or, fifth kind: one fresh record is written and all clients call delete(only_if_presented = true) on it - the marked-blob counts must sum to exactly 1); after every round the writes acknowledged in this and the previous round must be readable, at quiescence and after a restart every acknowledged key is served and records_count equals the number of acknowledged writes (a blob dropped by two racing lifecycle calls shows as lost writes) and the number of blob files on disk equals blobs_count (racing creators leave no orphan files). In the conc phase clients also call records_count(): it must never be below the number of puts acknowledged before the call. Non-trivial = >=1 read overlapped a write of the same key and >=1 blob rotation happened (conc); >= 4 clients and >= 10 rounds (conc-storm). distinct = FNV hash of the serialized case.".into(),
         assumptions: {
             let mut a = common_assumptions();
             a.push("interleavings are those the OS and the tokio scheduler produce in these runs: sampled, not enumerated".into());
